@@ -588,6 +588,26 @@ def check_lincomb(project: Project, rep):
                 prod = [x for x in ast.walk(v.args[0]) if isinstance(x, ast.BinOp) and isinstance(x.op, ast.Mult)]
                 if prod and any(isinstance(x, ast.Name) and x.id == P_COEFFS for x in ast.walk(v.args[0])):
                     ok = True
+                    # what is combined must be the landscapes RE-SAMPLED onto the common grid (the result of snap_pl), not the
+                    # operands as they came: on different grids the operators refuse them, and a requested start / stop /
+                    # num_steps would be ignored
+                    P_LANDS = fi.params[0]
+                    other = [side for b_ in prod for side in (b_.left, b_.right)
+                             if not any(isinstance(x, ast.Name) and x.id == P_COEFFS for x in ast.walk(side))]
+                    snaps = [c_ for c_ in ast.walk(f) if isinstance(c_, ast.Call)
+                             and (project.resolve(fi.module, c_.func, locs) or "").endswith(".snap_pl")]
+                    if other and snaps:
+                        uses_snap = any(any(isinstance(x, ast.Call) and (project.resolve(fi.module, x.func, locs) or "").endswith(".snap_pl")
+                                            for x in ast.walk(side)) for side in other)
+                        raw = [side for side in other if any(isinstance(x, ast.Name) and x.id == P_LANDS for x in ast.walk(side))
+                               and not any(isinstance(x, ast.Call) and (project.resolve(fi.module, x.func, locs) or "").endswith(".snap_pl")
+                                           for x in ast.walk(side))]
+                        if raw and not uses_snap:
+                            rep.refuted("AR-LC", fi, r, f"the coefficients multiply `{ast.unparse(raw[0])[:50]}`, the landscapes as they were "
+                                                        f"passed in; the landscapes re-sampled by snap_pl (line {snaps[0].lineno}) are computed "
+                                                        f"and dropped: operands on different grids are refused, a requested grid is ignored",
+                                        construct=f"{fi.qualname}: combination of un-snapped landscapes")
+                            return
         if ok:
             rep.discharged("AR-LC", fi, rets[0], "linear combination = Σ coeff·landscape through the landscape operators (their zero "
                                                  "padding and guards apply)")
